@@ -343,6 +343,26 @@ func checkC09(rep *core.Report) {
 		sl := core.BackwardSlice(sd.skip.Common().Args[1], core.SliceOpts{})
 		r2.Check(startCount != nil && sl[startCount], fname+":skip-amount", sd.skip.Pos(), "leftover = declared length - (consumed now - consumed at set start)", "skip amount does not subtract the octets consumed since the start of the set")
 		r2.Check(startCount != nil && everyHeaderReadAfter(sd.decodeSet, startCount), fname+":start-before-header", sd.decodeSet.Pos(), "consumed-count snapshot precedes the set header read", "the consumed-count snapshot is taken after the set header was read: the skip would overshoot by the header size")
+		// a failed skip is fatal: on every path where the skip's read fails the set decoder returns that error
+		if skipErr := extractOf(sd.skip, 1); skipErr == nil {
+			r2.Fail(fname+":skip-error-checked", sd.skip.Pos(), "the error of the skip read is discarded: a truncated set would be taken for a complete one")
+		} else {
+			allInstrs(sd.decodeSet, func(ins ssa.Instruction) {
+				r, ok := ins.(*ssa.Return)
+				if !ok || !sd.skipGuard.Dominates(r.Block()) || !(core.Walk{}).CanReach(sd.skip, r) {
+					return
+				}
+				vals, complete := core.ResolveAlongPaths(sd.skip, r, r.Results[0], nilEdgeFilter(skipErr, false), 64)
+				only := complete && len(vals) == 1 && vals[ssa.Value(skipErr)]
+				var got []string
+				for v := range vals {
+					got = append(got, describeVal(v))
+				}
+				sort.Strings(got)
+				r2.Check(only, fname+":failed-skip-is-fatal", r.Pos(), "when the skip read fails its error is what the set decoder returns",
+					fmt.Sprintf("when the skip of the set's remaining octets fails (datagram cut inside the set) the set decoder can return %v instead of that error: a pending non-fatal error would let decoding continue inside the truncated set", got))
+			})
+		}
 		// ---- R09.3 ----
 		checkReserved(r3, sd)
 	}
